@@ -165,7 +165,7 @@ def render_tree(ctx, obj, rng):
     return root
 
 
-def inject_raw(ctx, obj, rng):
+def inject_raw(ctx, obj, rng, edge=None):
     """put a few values into the typed instance WITHOUT passing them through the library's converters (the constructor converts what it is
     given, so a fault in a converter would otherwise shape the generator's own expectation): Unicode edge text in string elements, decimals with
     more significant digits than the decimal context's precision.  The document is then written from these raw values."""
@@ -173,9 +173,9 @@ def inject_raw(ctx, obj, rng):
     for k, t in H.spec_no_list(ctx, type(obj)):
         v = obj.__dict__.get(k)
         if isinstance(v, ctx.Aggregate):
-            inject_raw(ctx, v, rng)
-        elif isinstance(v, str) and type(t) in (T.String, T.NagString) and rng.random() < 0.2:
-            e = rng.choice(H.EDGE_TEXT)
+            inject_raw(ctx, v, rng, edge)
+        elif isinstance(v, str) and type(t) in (T.String, T.NagString) and rng.random() < (0.2 if edge is None else 0.5):
+            e = rng.choice(edge or H.EDGE_TEXT)
             n = t.length or 40
             new = (v[:max(0, n - len(e))] + e)[:n].strip()
             if new and "&" not in new:
@@ -186,13 +186,33 @@ def inject_raw(ctx, obj, rng):
     le = [t for k, t in type(obj).spec.items() if isinstance(t, T.ListElement)]
     for n, m in enumerate(obj):
         if isinstance(m, ctx.Aggregate):
-            inject_raw(ctx, m, rng)
+            inject_raw(ctx, m, rng, edge)
         elif isinstance(m, str) and le and type(le[0].converter) in (T.String, T.NagString) and rng.random() < 0.6:
             # repeated character-data elements: entity-looking text in the HELD value (the document escapes its '&' once more), Unicode edge text
-            ent = rng.choice(["R&amp;D", "5 &lt; 6", "x&nbsp;y", "&quot;q&quot;", "&amp;amp;", "a&apos;b"] + H.EDGE_TEXT)
+            ent = rng.choice(["R&amp;D", "5 &lt; 6", "x&nbsp;y", "&quot;q&quot;", "&amp;amp;", "a&apos;b"] + (edge or H.EDGE_TEXT))
             n_max = le[0].converter.length or 40
             if len(ent) <= n_max:
                 list.__setitem__(obj, n, ent)
+
+
+# the four ways a document reaches the parser as a FILE: (header version, CHARSET, the codec OFX 1.6 section 2.2 / XML prescribes for it -- the
+# generator's own table, not the library's --, ENCODING, characters that tell the codecs apart)
+W1252 = ["\u20ac 5", "\u201cq\u201d", "a\u2013b", "TM\u2122", "\u0153uvre", "\u0160koda", "\u2026", "d\u2019Or", "caf\u00e9", "\u00a3 9", "\u00fcber \u00df"]
+LATIN1 = ["caf\u00e9", "\u00a3 9", "\u00fcber \u00df", "\u00a9 \u00ae", "a\u00adb", "\u00bfqu\u00e9?", "\u00fe\u00ff", "\u00d7\u00f7"]
+FILE_FORMS = [("v1", "1252", "cp1252", "USASCII", W1252), ("v1", "ISO-8859-1", "latin-1", "USASCII", LATIN1),
+              ("v1", "NONE", "utf-8", "UNICODE", W1252 + ["\u4e2d\u6587", "\U0001f4b0"]), ("v2", None, "utf-8", None, W1252 + ["\u4e2d\u6587", "\U0001f4b0"])]
+
+
+def file_bytes(form, text, rng):
+    ver, charset, codec, encoding, _ = form
+    nl = rng.choice(["\r\n", "\n"])
+    if ver == "v1":
+        head = nl.join(["OFXHEADER:100", "DATA:OFXSGML", "VERSION:%s" % rng.choice(["102", "103", "151", "160"]), "SECURITY:NONE", "ENCODING:%s" % encoding,
+                        "CHARSET:%s" % charset, "COMPRESSION:NONE", "OLDFILEUID:NONE", "NEWFILEUID:NONE"]) + nl + nl
+    else:
+        head = ('<?xml version="1.0" encoding="UTF-8" standalone="no"?>' + nl +
+                '<?OFX OFXHEADER="200" VERSION="%s" SECURITY="NONE" OLDFILEUID="NONE" NEWFILEUID="NONE"?>' % rng.choice(["200", "211", "220"]) + nl)
+    return (head + text).encode(codec)
 
 
 def to_text(e, sgml, rng):
@@ -284,6 +304,7 @@ def run(rep, tier, rng):
                 titems.append("TFromM %s (%s)" % (H.enc_etree(parsed), exp)); tmeta.append(case)
             except ValueError:
                 pass
+    file_pass(ctx, rep, tier)
     rep.extra["typed_values_by_kind"] = lex
     for m in meta[:3]:
         rep.sample(m)
@@ -298,6 +319,51 @@ def run(rep, tier, rng):
     bad = C.coq_bad_indices(PROP, "typed", P01.TIMPORTS, "tcase_ok ety_table S", "tcase", titems, shard=150, prelude="Local Open Scope string_scope.")
     for i in bad[:30]:
         rep.disagreements.append(dict(tmeta[i], what="typed model", case=titems[i][:1500]))
+
+
+def file_pass(ctx, rep, tier):
+    """the same question asked of a FILE: the generator's document behind a v1 header (CHARSET 1252 / ISO-8859-1 / NONE) or a v2 header, encoded with
+    the codec that charset prescribes, read by OFXTree.parse and converted by OFXTree.convert.  String values carry characters that tell the codecs
+    apart (U+20AC is one byte in 1252, three in UTF-8, absent from ISO-8859-1).  Its own PRNG stream: the main stream's draws are left as they were."""
+    import io, os, random
+    from ofxtools.Parser import OFXTree
+    frng = random.Random("c03-file-%s" % os.environ.get("VERIF_SEED", "20260101"))
+    stats = {}
+    with_str = [c for c in ctx.concrete if any(type(t) in (ctx.Types.String, ctx.Types.NagString) for k, t in H.spec_no_list(ctx, c))]
+    n = 400 if tier == "thorough" else 120
+    for i in range(n):
+        cls = frng.choice(with_str if frng.random() < 0.8 else ctx.concrete)
+        form = FILE_FORMS[i % len(FILE_FORMS)]
+        obj = H.gen_instance(ctx, cls, frng, depth=2, full=0.6)
+        if obj is None:
+            continue
+        inject_raw(ctx, obj, frng, edge=form[4])
+        tree = render_tree(ctx, obj, frng)
+        sgml = form[0] == "v1" and frng.random() < 0.6
+        text = to_text(tree, sgml, frng)
+        try:
+            data = file_bytes(form, text, frng)
+        except UnicodeEncodeError:
+            form = FILE_FORMS[2]
+            data = file_bytes(form, text, frng)
+        label = "%s/%s" % (form[0], form[1] or "xml")
+        nonascii = any(b > 127 for b in data)
+        case = {"class": cls.__name__, "form": "file:" + label, "file_hex": data.hex()[:12000], "codec": form[2]}
+        stats[label + (":non-ascii" if nonascii else ":ascii")] = stats.get(label + (":non-ascii" if nonascii else ":ascii"), 0) + 1
+        rep.count(case, nontrivial=True, kind="file:" + label)
+        want = pairs(ctx, obj)
+        try:
+            t = OFXTree(); t.parse(io.BytesIO(data)); got = t.convert()
+        except Exception as e:
+            if H_lists_adjacent(ctx, obj):
+                rep.failures.append(C.Failure("file-valid-document-rejected:%s" % label, "a file valid for %s (header %s, body encoded as %s) is rejected by OFXTree.parse/convert: %s: %s"
+                                              % (cls.__name__, label, form[2], type(e).__name__, e), case))
+            continue
+        have = pairs(ctx, got)
+        if have != want:
+            diff = [(a, b) for a, b in zip(want, have) if a != b][:3] or [("length", len(want), len(have))]
+            rep.failures.append(C.Failure("file-value-differs:%s" % label, "%s: the values converted from the FILE differ from the values it was written from: %r" % (cls.__name__, diff), case))
+    rep.extra["file_forms"] = stats
 
 
 def H_lists_adjacent(ctx, obj):
@@ -318,6 +384,18 @@ def replay(obj):
     from ofxtools.Parser import TreeBuilder
     ctx = H.Ctx()
     r = obj["replay"]
+    if "file_hex" in r:
+        import io
+        from ofxtools.Parser import OFXTree
+        data = bytes.fromhex(r["file_hex"])
+        print("replay: file bytes (%s):" % r["codec"], data[:300])
+        try:
+            t = OFXTree(); t.parse(io.BytesIO(data)); got = t.convert()
+        except Exception as e:
+            print("replay: OFXTree.parse/convert ->", type(e).__name__, e); return 1
+        print("replay: converted values ->", pairs(ctx, got)[:12])
+        print("(the typed values the file was written from are in the 'what' field)")
+        return 1
     p = TreeBuilder(); p.feed(r["document"]); parsed = p.close()
     got, _ = H.run_from_etree(ctx, parsed)
     print("replay: conversion ->", got[0], got[1] if got[0] != "ok" else pairs(ctx, got[1])[:10])
